@@ -114,7 +114,8 @@ impl<K: ExpiredKey<E>, E: Expiration, V: Copy> KeyExpTree<K, E, V> {
     fn expire_all(&mut self, time: E) {
         let n = self.store.buffer.len() as u32;
         for i in 1..n {
-            if self.is_part_of_the_tree(i) && !self.node(i).is_not_expired(time) {
+            // removing a node with two children moves its successor's entity into slot i: check the slot again
+            while self.is_part_of_the_tree(i) && !self.node(i).is_not_expired(time) {
                 self.delete_index(i);
             }
         }
